@@ -27,7 +27,12 @@ for sid in sorted(os.listdir(os.path.join(VERIF, 'seeded'))):
     txt = (m.get('summary', '') + ' (' + str(m.get('needs', '')) + ')').replace('|', '/').replace('\n', ' ')
     if len(txt) > 330:
         txt = txt[:327] + '...'
-    rows.append('| %s | %s | %s | %s | %s |' % (sid, m.get('property'), txt, ', '.join(caught) or ('–' if r else 'not run yet'), ', '.join(missed) or '–'))
+    note = ''
+    if m.get('obsolete'):
+        note = ' [OBSOLETE on the final /repo: ' + str(m['obsolete'])[:160].replace('|', '/') + ' — verdicts are those recorded when it last applied]'
+    elif m.get('ported'):
+        note = ' [re-ported to a later /repo HEAD]'
+    rows.append('| %s | %s | %s | %s | %s |' % (sid, m.get('property'), txt + note, ', '.join(caught) or ('–' if r else 'not run yet'), ', '.join(missed) or '–'))
 p = os.path.join(VERIF, 'DESIGN.md')
 s = open(p).read()
 s = re.sub(r'(<!-- SEEDED-TABLE-BEGIN -->\n).*?(<!-- SEEDED-TABLE-END -->)', lambda mm: mm.group(1) + '\n'.join(rows) + '\n' + mm.group(2), s, flags=re.S)
